@@ -796,7 +796,7 @@ func main() {
 
 	nMod, nE2E := 3000, 400
 	if *tier == "thorough" {
-		nMod, nE2E = 24000, 4000
+		nMod, nE2E = 60000, 8000
 	}
 
 	// ---- 1. modifier alone
